@@ -352,8 +352,46 @@ func runDET(c *Ctx) {
 				}
 			}
 		}
+		// a failed element marshal must fail the encoding: otherwise different values share bytes
+		for _, ci := range CallsOf(fn) {
+			call, ok := ci.(*ssa.Call)
+			if !ok || ir.ErrorResultIndex(call.Call.Signature()) < 0 {
+				continue
+			}
+			ext := c.Facts.External(ci)
+			fall := strings.HasPrefix(ext, "callback:")
+			for _, callee := range c.Facts.Callees(ci) {
+				if c.Facts.MayFail[callee] {
+					fall = true
+				}
+			}
+			if !fall {
+				continue
+			}
+			var errV ssa.Value = call
+			if call.Call.Signature().Results().Len() > 1 {
+				errV = nil
+				if call.Referrers() != nil {
+					for _, r := range *call.Referrers() {
+						if ex, ok := r.(*ssa.Extract); ok && ex.Index == ir.ErrorResultIndex(call.Call.Signature()) {
+							errV = ex
+						}
+					}
+				}
+			}
+			if errV == nil {
+				bad = true
+				c.Violation(fn, P.InstrPos(call), "marshal error ignored on the encode path", "an element that cannot be encoded is silently written as something else")
+				continue
+			}
+			if ok2, ret := errorPropagated(fn, call, errV); !ok2 {
+				bad = true
+				c.Violation(fn, P.InstrPos(ret), "marshal error dropped on the encode path",
+					"when encoding an element fails the node is still encoded (with an empty body for it): values that cannot be marshalled (NaN, ±Inf, channels) all produce the same bytes, so different contents get the same name")
+			}
+		}
 		if !bad {
-			c.OK(P.Pos(fn.Pos()), "encode-path function "+ir.FuncName(fn), "no nondeterminism source", false)
+			c.OK(P.Pos(fn.Pos()), "encode-path function "+ir.FuncName(fn), "no nondeterminism source; element marshal errors fail the encoding", false)
 		}
 	}
 }
